@@ -99,6 +99,10 @@ let init () =
     let sched = Stdlib.List.map choice_of_tok args in
     let (_, o) = run_reg Registry.init sched in
     "ok" ^ String.concat "" (Stdlib.List.map (fun x -> " " ^ tok_of_obs x) o));
+  (* replay-only forms of the harness (seeds of adaptive / concurrent runs): the model is asked the recorded
+     script (regseq) resp. history (reglin), which the implementation prints *)
+  register "regconc" (fun _ -> "n/a: the model is asked the recorded history (reglin ...)");
+  register "regadapt" (fun _ -> "n/a: the model is asked the generated script (regseq ...)");
   register "reglin" (fun args ->
     let items = Array.of_list (Stdlib.List.map parse_item args) in
     try if linearisable items then "lin ok" else "lin none" with Budget -> "lin budget")
